@@ -3,3 +3,4 @@
 import DclabModel.AuditCmd
 import DclabModel.DriveUtil
 import DclabModel.Properties.C19
+import DclabModel.Properties.C17
